@@ -391,3 +391,34 @@ def big_script(n_chars, salt=0):
         size += len(u)
         k += 1
     return ''.join(out), [u[:-1] for u in out]
+
+
+
+# ----------------------------------------------------------------------------------- keyword phrases of the lexer table
+
+def keyword_phrase_texts():
+    """every multi-word phrase that a rule of the real lexer table can match as ONE token (read off CPython's parse tree of
+    the rule: LEFT OUTER JOIN, END IF, LATERAL VIEW EXPLODE, NOT NULL, ...), respelled with a tab, a line break + indent,
+    two blanks and CR LF between the words, inside a small statement (code that takes such a token apart must put it back
+    together character by character)"""
+    from . import regexfacts
+    try:
+        from sqlparse import keywords
+        rules = list(keywords.SQL_REGEX)
+    except Exception:       # noqa
+        return []
+    out, seen = [], set()
+    for rx, _a in rules:
+        try:
+            ph = regexfacts.phrases(rx)
+        except Exception:   # noqa
+            ph = None
+        for p_ in sorted(ph or ()):
+            if ' ' not in p_ or p_ in seen or not all(w.replace('_', '').isalnum() for w in p_.split(' ')):
+                continue
+            seen.add(p_)
+            for sep in ('\t', '\n    ', '  ', '\r\n'):
+                sp = p_.replace(' ', sep)
+                out.append('select a from t %s (x) y where b = 1;' % sp)
+                out.append('%s(arr) e' % sp.lower())
+    return out
